@@ -4,7 +4,8 @@
 (*   Accept : exit status 0 (hexsim / xrun: the program's exit value modulo    *)
 (*            256), nothing on stderr, the file named by -o/--output (a.out by *)
 (*            default; xrun: its scratch binary a.bin) holds the binary and    *)
-(*            nothing else in the directory changes.                           *)
+(*            nothing else in the directory changes.  If the named output is   *)
+(*            a pipe, its reader receives exactly the binary.                  *)
 (*   Reject : a diagnostic on stderr, a non-zero status, and the directory is  *)
 (*            exactly as before (no new file, a pre-existing target intact).   *)
 (* Signals, time-outs and sanitizer reports are not actions of this spec.      *)
@@ -32,6 +33,12 @@ Invocations ==
   \cup {[tool |-> "hexsim", src |-> "accepted", opt |-> "none", pos |-> "after", pre |-> "absent", xv |-> x, via |-> "const"] : x \in ExitVals}
   \cup {[tool |-> "hexsim", src |-> "accepted", opt |-> "none", pos |-> "after", pre |-> "absent", xv |-> x, via |-> "read"] : x \in ReadVals}
   \cup {[tool |-> t, src |-> "accepted", opt |-> "none", pos |-> "after", pre |-> "absent", xv |-> x, via |-> "class"] : t \in {"xrun", "hexsim"}, x \in ReadVals}
+  \* the named output is not a regular file but a pipe with a reader at its other end (a FIFO; the same as -o /dev/stdout into a
+  \* pipe): nothing appears in the directory, the reader receives the binary - or nothing at all if the source is rejected
+  \cup {[tool |-> t, src |-> s, opt |-> o, pos |-> "after", pre |-> "fifo", xv |-> 0, via |-> "const"] :
+          t \in Compilers, s \in SrcClass, o \in OptSpell \ {"none"}}
+  \* an image larger than 200000 bytes (but well inside the 200000-word memory)
+  \cup {[tool |-> "hexsim", src |-> "accepted", opt |-> "none", pos |-> "after", pre |-> "absent", xv |-> 5, via |-> "big"]}
 WellFormed(i) == ~(i.opt = "none" /\ i.pos = "before")      \* position is meaningless without the option
 
 Target(i) == CASE i.tool = "xrun" -> "a.bin" [] i.tool = "hexsim" -> "" [] i.opt = "none" -> "a.out" [] OTHER -> "out.bin"
@@ -63,7 +70,8 @@ Spec == Init /\ [][Next]_vars
 \* the contract, as invariants of the state machine
 StatusTellsTheTruth == phase = "done" => ((status = 0 /\ inv.tool \in Compilers) <=> (inv.src = "accepted" /\ inv.tool \in Compilers))
 ErrorLeavesNothing  == (phase = "done" /\ diag) => (status # 0 /\ created = {} /\ modified = {})
-OutputWhereAsked    == (phase = "done" /\ inv.tool \in Compilers /\ status = 0) => (created \cup modified = {Target(inv)} /\ targetIsBinary)
+OutputWhereAsked    == (phase = "done" /\ inv.tool \in Compilers /\ status = 0) =>
+                          ((inv.pre # "fifo" => created \cup modified = {Target(inv)}) /\ targetIsBinary)
 
 \* conformance of one observed run: obs = [status, stderr, created, modified, targetok]
 Conforms(i, obs) ==
